@@ -13,6 +13,7 @@
    parser_opts is the option list authenticateJWT builds and opt_ok is golang-jwt's verifyIssuer / verifyAudience. *)
 From Coq Require Import List ZArith Bool.
 Require Import MTX.Lib.Utf8 MTX.Lib.Json MTX.Model.C01_Auth MTX.Model.C02_AuthExt MTX.Proofs.C02_AuthExt.
+Require Import MTX.Model.C02_Jwks MTX.Proofs.C02_Jwks.
 Import ListNotations.
 Local Open Scope Z_scope.
 
@@ -188,6 +189,65 @@ Theorem C02_jwt_cfg_ask : forall rx jwt_verify dec_perms dec_str issuer audience
 Proof. exact jwt_cfg_ask. Qed.
 Print Assumptions C02_jwt_cfg_ask.
 
+(* ---- which JWKS keys: the cache of pullJWTJWKS over a history of calls on one Manager (Model/C02_Jwks.v) -------------
+   K: key sets; verify k: golang-jwt with the key function built from k; EAuth served r: Authenticate(r) while the JWKS server
+   would answer `served`; ERefresh: RefreshJWTJWKS; EExpire: the refresh period passes. *)
+
+(* after a refresh (or expiry), whatever happened before and whatever happens in between: a request granted later - not
+   being excluded - is granted under a key set the server handed out after that moment; in particular a token signed with
+   a key that was withdrawn before the refresh is no longer admitted *)
+Theorem C02_jwks_refresh_honoured :
+  forall (K : Type) rx (verify : K -> list Z -> option jclaims) dec_perms dec_str issuer audience ex inq st evs served r st' u,
+  auth_step K rx verify dec_perms dec_str issuer audience ex inq
+    (fst (run K rx verify dec_perms dec_str issuer audience ex inq (invalidate K st) evs)) served r = (st', Granted u) ->
+  excluded rx ex r = false ->
+  exists k, In k (served_keys K (evs ++ [EAuth K served r])) /\
+            authenticate_jwt_cfg rx (verify k) dec_perms dec_str issuer audience ex true inq r = Granted u.
+Proof. exact refresh_honoured. Qed.
+Print Assumptions C02_jwks_refresh_honoured.
+
+(* a stale cache and a JWKS server without a usable answer: denied, state unchanged - no fallback to the old keys *)
+Theorem C02_jwks_no_stale_fallback :
+  forall (K : Type) rx (verify : K -> list Z -> option jclaims) dec_perms dec_str issuer audience ex inq st r,
+  js_fresh K st = false -> excluded rx ex r = false ->
+  exists a, auth_step K rx verify dec_perms dec_str issuer audience ex inq st None r = (st, Denied a).
+Proof. exact stale_fetch_failure. Qed.
+Print Assumptions C02_jwks_no_stale_fallback.
+
+(* a stale cache and an answering server: the served keys decide and are cached; a fresh cache: the cached keys decide
+   whatever the server would answer; excluded requests never consult the JWKS *)
+Theorem C02_jwks_fetch :
+  forall (K : Type) rx (verify : K -> list Z -> option jclaims) dec_perms dec_str issuer audience ex inq st k r,
+  js_fresh K st = false -> excluded rx ex r = false ->
+  auth_step K rx verify dec_perms dec_str issuer audience ex inq st (Some k) r =
+  ({| js_fresh := true; js_keys := Some k |},
+   authenticate_jwt_cfg rx (verify k) dec_perms dec_str issuer audience ex true inq r).
+Proof. exact stale_fetch_success. Qed.
+Print Assumptions C02_jwks_fetch.
+
+Theorem C02_jwks_cached :
+  forall (K : Type) rx (verify : K -> list Z -> option jclaims) dec_perms dec_str issuer audience ex inq st k served r,
+  js_fresh K st = true -> js_keys K st = Some k -> excluded rx ex r = false ->
+  auth_step K rx verify dec_perms dec_str issuer audience ex inq st served r =
+  (st, authenticate_jwt_cfg rx (verify k) dec_perms dec_str issuer audience ex true inq r).
+Proof. exact fresh_cache_used. Qed.
+Print Assumptions C02_jwks_cached.
+
+Theorem C02_jwks_excluded :
+  forall (K : Type) rx (verify : K -> list Z -> option jclaims) dec_perms dec_str issuer audience ex inq st served r,
+  excluded rx ex r = true ->
+  auth_step K rx verify dec_perms dec_str issuer audience ex inq st served r = (st, Granted []).
+Proof. exact excluded_no_fetch. Qed.
+Print Assumptions C02_jwks_excluded.
+
+(* every state reachable from a new Manager has a key function whenever its cache is fresh (no nil key function) *)
+Theorem C02_jwks_reachable :
+  forall (K : Type) rx (verify : K -> list Z -> option jclaims) dec_perms dec_str issuer audience ex inq evs,
+  let st := fst (run K rx verify dec_perms dec_str issuer audience ex inq (js_init K) evs) in
+  js_fresh K st = true -> js_keys K st <> None.
+Proof. exact reachable_wf. Qed.
+Print Assumptions C02_jwks_reachable.
+
 (* non-vacuity *)
 Definition ex_req (tok pass proto action query : list Z) : xreq :=
   {| x_user := [117]; x_pass := pass; x_token := tok; x_ipstr := [49]; x_action := action; x_path := [112]; x_proto := proto;
@@ -227,10 +287,22 @@ Example C02_example :
     if list_eqb t [84] then Some (claims [73] [[88]; [65]]) else if list_eqb t [85] then Some (claims [73] [[88]])
     else if list_eqb t [86] then Some (claims [73] []) else if list_eqb t [87] then Some (claims [74] [[65]])
     else if list_eqb t [89] then Some (claims [] [[65]]) else None in
-  let run := fun iss aud t => authenticate_jwt_cfg (fun _ _ => false) verify decp decs iss aud [] true None (ex_req t [] p_rtsp a_read []) in
-  map (run [73] [65]) [[84]; [85]; [86]; [87]; [89]] = [Granted [115]; Denied false; Denied false; Denied false; Denied false] /\
-  map (run [73] []) [[84]; [85]; [86]; [87]; [89]] = [Granted [115]; Granted [115]; Granted [115]; Denied false; Denied false] /\
-  map (run [] [65]) [[84]; [85]; [86]; [87]; [89]] = [Granted [115]; Denied false; Denied false; Granted [115]; Granted [115]] /\
-  map (run [] []) [[84]; [85]; [86]; [87]; [89]] = repeat (Granted [115]) 5 /\
-  parser_opts [73] [65] = [WithIssuer [73]; WithAudience [65]].
+  let cfgrun := fun iss aud t => authenticate_jwt_cfg (fun _ _ => false) verify decp decs iss aud [] true None (ex_req t [] p_rtsp a_read []) in
+  map (cfgrun [73] [65]) [[84]; [85]; [86]; [87]; [89]] = [Granted [115]; Denied false; Denied false; Denied false; Denied false] /\
+  map (cfgrun [73] []) [[84]; [85]; [86]; [87]; [89]] = [Granted [115]; Granted [115]; Granted [115]; Denied false; Denied false] /\
+  map (cfgrun [] [65]) [[84]; [85]; [86]; [87]; [89]] = [Granted [115]; Denied false; Denied false; Granted [115]; Granted [115]] /\
+  map (cfgrun [] []) [[84]; [85]; [86]; [87]; [89]] = repeat (Granted [115]) 5 /\
+  parser_opts [73] [65] = [WithIssuer [73]; WithAudience [65]] /\
+  (* a session: key set 1 verifies token T, key set 2 verifies token U. Served 1: T granted; the server switches to 2: T still
+     granted from the cache and U denied; after RefreshJWTJWKS T is denied and U granted; after the period passed with a
+     dead server both are denied; an excluded request is granted meanwhile; the server back with 1: T granted *)
+  let kverify := fun (k : Z) (t : list Z) =>
+    if ((k =? 1) && list_eqb t [84]) || ((k =? 2) && list_eqb t [85]) then Some (claims [] []) else None in
+  let rq := fun t => ex_req t [] p_rtsp a_read [] in
+  snd (run Z (fun _ _ => false) kverify decp decs [] [] [{| p_action := a_publish; p_path := [] |}] None (js_init Z)
+         [EAuth Z (Some 1) (rq [84]); EAuth Z (Some 2) (rq [84]); EAuth Z (Some 2) (rq [85]); ERefresh Z;
+          EAuth Z (Some 2) (rq [84]); EAuth Z (Some 2) (rq [85]); EExpire Z; EAuth Z None (rq [84]); EAuth Z None (rq [85]);
+          EAuth Z None (ex_req [] [] p_rtsp a_publish []); EAuth Z (Some 1) (rq [84])]) =
+  [Granted [115]; Granted [115]; Denied false; Denied false; Granted [115]; Denied false; Denied false; Granted [];
+   Granted [115]].
 Proof. vm_compute. repeat split. Qed.
